@@ -140,6 +140,33 @@ class Bounded:
         BOUNDED.append(self)
 
 
+class patched:
+    """context manager for native harnesses: replaces a function / class of the repository by a recording double in EVERY loaded
+    taurex module that holds a reference to it (the defining module and every `from x import f` site), so that the double is
+    seen however the code under test reaches the function; everything is restored on exit"""
+
+    def __init__(self, *pairs):
+        self.pairs = [(pairs[i], pairs[i + 1]) for i in range(0, len(pairs), 2)]
+        self.undo = []
+
+    def __enter__(self):
+        import sys
+        for original, replacement in self.pairs:
+            for name, mod in list(sys.modules.items()):
+                if mod is None or not (name == 'taurex' or name.startswith('taurex.')):
+                    continue
+                for attr, val in list(vars(mod).items()):
+                    if val is original:
+                        self.undo.append((mod, attr, original))
+                        setattr(mod, attr, replacement)
+        return self
+
+    def __exit__(self, *exc):
+        for mod, attr, original in reversed(self.undo):
+            setattr(mod, attr, original)
+        return False
+
+
 class GenTrace:
     """what a native harness returns for a generator unit: values[k] is a COPY of what the consumer received at
     the k-th yield, states[k] the inputs-shaped snapshot of the object state at that moment"""
